@@ -560,22 +560,25 @@ def respond (code : RErr → Nat) : Res → Resp
   | .ok v => ⟨0, some v⟩
   | .error e => ⟨code e, none⟩
 
-/-- `Router::get(path)` (registry mounts only) then `RegisteredRegistry::handle` – identical text in
-`handle_with_ctx`: `pointer_for` (else MethodNotFound), `decode_body` (else its code), `dispatch`
-(value or its code).  `none` = the router has no handler for the path. -/
+/-- `RegisteredRegistry::handle` – identical text in `handle_with_ctx` – of the registry mounted at the
+normalised prefix `pre`: `pointer_for` (else MethodNotFound), `decode_body` (else its code), `dispatch`
+(value or its code). -/
+def Reg.handleAt (d : Decoders) (code : RErr → Nat) (notFound : Nat) (rc : Bool) (reg : Reg)
+    (pre : List Char) (path : List Char) (fmt : Nat) (body : Bytes) : Reg × Resp :=
+  match pointerFor pre path with
+  | none => (reg, ⟨notFound, none⟩)
+  | some ptr =>
+    match decodeBody d fmt body with
+    | .error e => (reg, ⟨code e, none⟩)
+    | .ok b =>
+      let (reg', r) := reg.dispatch rc ptr b
+      (reg', respond code r)
+
+/-- `Router::get(path)` (registry mounts only; `none` = the router has no handler for the path), then
+that mount's handler. -/
 def Reg.mountHandle (d : Decoders) (code : RErr → Nat) (notFound : Nat) (rc : Bool) (reg : Reg)
     (prefixes : List (List Char)) (path : List Char) (fmt : Nat) (body : Bytes) : Option (Reg × Resp) :=
-  match routerFind prefixes path with
-  | none => none
-  | some pre =>
-    match pointerFor pre path with
-    | none => some (reg, ⟨notFound, none⟩)
-    | some ptr =>
-      match decodeBody d fmt body with
-      | .error e => some (reg, ⟨code e, none⟩)
-      | .ok b =>
-        let (reg', r) := reg.dispatch rc ptr b
-        some (reg', respond code r)
+  (routerFind prefixes path).map fun pre => reg.handleAt d code notFound rc pre path fmt body
 
 /-! ## `src/json_pointer.rs` -/
 
